@@ -21,7 +21,7 @@ from ..align import Hole, flatten, lang_decimal_int, lang_hex_int, match, regist
 from ..common import seg, short
 from ..linear import linform
 from ..model import AnalysisError, ClassInfo, FuncInfo, walk_no_nested
-from ..paths import calls_in
+from ..paths import calls_in, function_paths
 from ..ppgram import GrammarEval, Langs, int_accept
 from ..report import Ctx
 from .c01 import map_rule
@@ -256,20 +256,100 @@ def run(ctx: Ctx) -> None:
     if jb is None:
         raise AnalysisError("anchor vanished: JTypeInstruction branch")
     t, call, node = jb
-    kw = {k.arg: k.value for k in as_keywords(m, call, m.cls("JAL"))}
-    sub_ok = any(isinstance(n, ast.If) and ast.unparse(n.test) in ("line_parsed.get('imm')",) and any(
-        isinstance(s, ast.AugAssign) and isinstance(s.op, ast.Sub) and ast.unparse(s.target) == "imm_val" and ast.unparse(s.value) == "address_count"
-        for s in n.body) for n in ast.walk(node))
-    r.check(sub_ok, "J|numeric-operand-is-absolute", wi.loc(node), "a numeric jal operand is no longer converted from absolute to pc-relative")
-    r.check("abs_addr" in kw and linform(kw["abs_addr"]) == {"imm_val": 1, "address_count": 1} and ast.unparse(kw.get("imm")) == "imm_val",
-            "J|abs_addr", wi.loc(call), "abs_addr is not imm + address of the instruction")
+    # On every path of the emission pass that builds a J-type instruction, with R = the converted operand and A = the address
+    # of the instruction:  numeric operand (printed absolute address):  imm = R - A, abs_addr = R;   label:  imm = R, abs_addr = R + A.
+    # Locals are substituted per path and sums simplified, so temporaries, `imm_val -= A` vs a conditional expression, or
+    # computing abs_addr first do not matter.
+    from ..pathsym import iteration, sym_events
+    from ..symflow import Printer
+    from .c04 import emit_counter, _entry_alias
+    wi_j, cnt_j, loop_j = emit_counter(ctx)
+    al = _entry_alias(loop_j)
+    prj = Printer(m, wi_j.params, al, canonical=True)
+    seen_j: set = set()
+    n_num = n_lab = 0
+    for p_ in function_paths(wi_j.node):
+        it = iteration(p_, loop_j)
+        if it is None:
+            continue
+        sig = tuple((id(e.node), e.pol, e.kind) for e in p_.events[it[0] + 1:it[1]])
+        if sig in seen_j:
+            continue
+        seen_j.add(sig)
+        evs = [se for se in sym_events(p_, keep={cnt_j}) if it[0] < se.index < it[1]]
+        if not any(se.event.kind == "test" and se.event.pol and "JTypeInstruction" in ast.unparse(se.node) and "issubclass" in ast.unparse(se.node) for se in evs):
+            continue
+        def numeric_test(e: ast.AST):
+            """polarity with which `e` says "the operand is a number" (None: e is not that test)"""
+            pol = True
+            while isinstance(e, ast.UnaryOp) and isinstance(e.op, ast.Not):
+                e, pol = e.operand, not pol
+            t = " ".join(ast.unparse(e).split())
+            if t in ("line_parsed.get('imm')", "line_parsed.imm", "line_parsed.get('imm') is not None", "line_parsed.get('imm') != None",
+                     "bool(line_parsed.get('imm'))", "'imm' in line_parsed"):
+                return pol
+            if t in ("line_parsed.get('imm') is None", "line_parsed.get('imm') == None", "'imm' not in line_parsed"):
+                return not pol
+            return None
+
+        def assume(e: ast.AST, flag: bool) -> ast.AST:
+            class T(ast.NodeTransformer):
+                def visit_IfExp(self, n):
+                    self.generic_visit(n)
+                    pol = numeric_test(n.test)
+                    if pol is None:
+                        return n
+                    return n.body if pol == flag else n.orelse
+            import copy as _copy
+            return T().visit(_copy.deepcopy(e))
+
+        numeric = None
+        for se in evs:
+            if se.event.kind == "test":
+                pol = numeric_test(se.event.node)
+                if pol is not None:
+                    numeric = (bool(se.event.pol) == pol)
+        ctor = None
+        for se in evs:
+            if se.event.kind != "stmt":
+                continue
+            for c_ in calls_in(se.node):
+                if isinstance(c_.func, ast.Attribute) and c_.func.attr == "append" and c_.args and isinstance(c_.args[0], ast.Call):
+                    ctor = c_.args[0]
+        if ctor is None:
+            continue
+        kwj = {k.arg: k.value for k in as_keywords(m, ctor, m.cls("JAL"))}
+        convs = [x for v in kwj.values() for x in ast.walk(v) if isinstance(x, ast.Call) and isinstance(x.func, ast.Attribute) and x.func.attr == "_convert_label_or_imm"]
+        if not convs or "imm" not in kwj or "abs_addr" not in kwj:
+            r.check(False, "J|abs_addr", wi_j.loc(ctor), "the J-type constructor is not given imm / abs_addr derived from the converted operand")
+            continue
+        R, A = prj.show(convs[0]), cnt_j
+        for flag in (True, False):
+            if numeric is not None and numeric != flag:
+                continue
+            got = (prj.show(assume(kwj["imm"], flag)), prj.show(assume(kwj["abs_addr"], flag)))
+            if flag:
+                n_num += 1
+                want_j = (f"Sub({R}, {A})", R)
+                r.check(got == want_j, "J|numeric-operand-is-absolute", wi_j.loc(ctor),
+                        f"a numeric jal operand is the absolute target: imm must be operand - address and abs_addr the operand; found imm=`{got[0]}`, abs_addr=`{got[1]}`")
+            else:
+                n_lab += 1
+                want_j = (R, prj.show(ast.BinOp(left=ast.Name(id=A, ctx=ast.Load()), op=ast.Add(), right=convs[0])))
+                r.check(got == want_j, "J|abs_addr", wi_j.loc(ctor),
+                        f"for a label operand imm is the converted offset and abs_addr = imm + address of the instruction; found imm=`{got[0]}`, abs_addr=`{got[1]}`")
+    if n_num == 0 or n_lab == 0:
+        raise AnalysisError(f"R14.jal: J-type emission paths not recognised (numeric {n_num}, label {n_lab})")
     jt = m.cls("JTypeInstruction")
     jf, jtpl = repr_template(m, jt)
     jh = [h.expr for h in (jtpl or []) if isinstance(h, Hole) and h.kind == "int"]
     r.check(jh == ["self.abs_addr"], "J|prints-absolute", jf.loc() if jf else jt.loc(),
             f"J-type prints {jh}; the assembler reads a numeric jal operand as an absolute address, so the absolute address must be printed")
     ji = m.method(jt, "__init__", own=True)
-    r.check("self.abs_addr = abs_addr" in " ".join(ast.unparse(ji.node).split()), "J|stored", ji.loc(), "abs_addr is not stored as given")
+    from ..parsershape import normal_flow
+    jfl = normal_flow(m, ji)
+    jst = {jfl.canon(e.expr) for e in jfl.effects if e.kind == "store" and jfl.canon_cond(e.cond) == "TRUE"}
+    r.check(f"P0.abs_addr := P{ji.params.index('abs_addr')}" in jst if "abs_addr" in ji.params else False, "J|stored", ji.loc(), "abs_addr is not stored as given")
     # address_count advances by the length of every emitted instruction (so 'same address' is well defined)
     from .c04 import advances_of, emit_counter, emit_pass_checks
     wi2, c2, l2 = emit_counter(ctx)
@@ -285,11 +365,8 @@ def run(ctx: Ctx) -> None:
     from ..operandspec import convert_rule
     convert_rule(ctx, r)
     # B-type operands printed numerically are taken as pc-relative immediates unchanged
-    cl = m.method(pc, "_convert_label_or_imm", own=True)
-    t3 = " ".join(ast.unparse(cl.node).split())
-    rets_ok = any(isinstance(n, ast.Return) and isinstance(n.value, ast.Name) and n.value.id == "imm_value" for n in walk_no_nested(cl.node))
-    r.check("if imm_value % 2: raise ParserOddImmediateException" in t3 and rets_ok, "B|numeric-operand", cl.loc(),
-            "a numeric branch operand is no longer used unchanged as the (even) immediate")
+    # (that a numeric branch operand is used unchanged as the even immediate is part of the reference comparison of
+    #  _convert_label_or_imm in convert_rule above)
     r.floor(40)
 
     idem_rule(ctx)
